@@ -232,6 +232,10 @@ def gen_cases(tier, seed):
     else:
       out.append({'kind': 'eager', 'r': r, 't0': t0, 'eager': rng.choice(['e', 't']),
                   'ops': gen_trace(rng, r, rng.choice([8, 16, 25]), t0)})
+  for i in range(250 if quick else 3000):
+    rng = C.case_rng(seed + 15485863, PID, i)
+    r = RES[i % 4]
+    out.append({'kind': 'real', 'r': r, 't0': rng.choice([0, 1000]), 'ops': gen_trace(rng, r, rng.choice([10, 20, 30]), 0)})
   out.extend(_exh(4 if quick else 5))
   return out
 
@@ -262,8 +266,73 @@ def _ticks(x, flags):
 PC = {'top': 0, 'idle': 1, 'sleep0': 2, 'timed': 3, 'sleepn': 5}
 
 
+def run_real(case):
+  """End-to-end run on the real gevent hub (virtual time only); observed by the monitor alone."""
+  tqm = _S['tqm']
+  r = case['r']
+  w = V.RealWorld(0.0).activate()
+  flags = {}
+  events = []
+  cancels = {}
+  st = {'nsched': 0}
+
+  def tk(x):
+    return _ticks(x, flags)
+
+  w.on_spawn = lambda fn: events.append(['spawn', getattr(fn, 'k', -1), tk(w.now)])
+  tq = tqm.TimerQueue(time_source=w.time, resolution=r / U)
+
+  def make_action(k, body):
+    def act():
+      events.append(['run', k, tk(w.now)])
+      for op in body:
+        call(op)
+    act.k = k
+    return act
+
+  def call(op):
+    if op['op'] == 'sched':
+      k = st['nsched'] + 1
+      st['nsched'] = k
+      events.append(['sched', k, op['d'], tk(w.now)])
+      cancels[k] = tq.Schedule(op['d'] / U, make_action(k, op.get('body') or []))
+    elif op['op'] == 'cancel' and op['k'] in cancels:
+      events.append(['cancel', op['k'], tk(w.now)])
+      cancels[op['k']]()
+
+  def quiet():
+    if tq._worker.dead and not flags.get('worker_exc'):
+      flags['worker_exc'] = type(tq._worker.exception).__name__
+      events.append(['worker-died', flags['worker_exc'], tk(w.now)])
+    events.append(['quiet', tk(w.now)])
+  try:
+    if case.get('t0'):
+      w.advance_to(case['t0'] / U)
+      events.append(['tick', tk(w.now)])
+    for op in case['ops']:
+      t = op['op']
+      if t in ('sched', 'cancel'):
+        call(op)
+      elif t == 'tick':
+        # the clock moves while greenlets are parked; time-outs that elapse on the way fire at their own time
+        w.advance_to((tk(w.now) + op['dt']) / U, on_time=lambda: events.append(['tick', tk(w.now)]))
+        quiet()
+      elif t in ('worker', 'run'):
+        w.yield_once()
+      elif t == 'settle':
+        w.settle()
+        quiet()
+    w.settle()
+    quiet()
+  finally:
+    w.close()
+  return {'steps': [], 'events': events, 'flags': flags, 'nsched': st['nsched']}
+
+
 def run_impl(case):
   setup()
+  if case['kind'] == 'real':
+    return run_real(case)
   tqm = _S['tqm']
   r = case['r']
   w = V.World(0.0).activate()
@@ -533,6 +602,8 @@ def to_coq(case, obs):
 
 
 def nontrivial(case, obs):
+  if case['kind'] == 'real':
+    return any(e[0] == 'run' for e in obs['events'])
   ls = [l[0] for l, _o in obs['steps']]
   return 'W' in ls and 'S' in ls
 
